@@ -228,6 +228,14 @@ def gen_long_history(rng, ctx):
         elif r < 0.02:
             ops_.append(_raising_call(rng))
         ops_.append(op)
+    # volume in distinct *words*, not calls: thousands of identifiers the
+    # process has never seen pass through the lexer (bounded caches evict)
+    for j in range(rng.choice([1, 2, 3])):
+        vol = {'op': 'call', 'api': rng.choice(['tokenize', 'split']),
+               'inp': {'t': 'words', 'n': rng.choice([600, 3000, 5000]),
+                       'k': j},
+               'opts': None, 'enc': None}
+        ops_.insert(rng.randrange(0, max(1, len(ops_) // 2)), vol)
     return {'ops': ops_, 'timeout': 300.0, 'long': True}
 
 
